@@ -520,7 +520,75 @@ func (tt *TermTable) Cmp(op Op, a, b *Term) *Term {
 	if a == b {
 		return tt.Bool(op == OpULe || op == OpSLe)
 	}
+	// unsigned upper bounds known from the shape of a: (x & c) <= c, zext(x) < 2^w
+	if (op == OpULt || op == OpULe) && b.IsConst() {
+		if ub, ok := tt.ubound(a); ok {
+			if (op == OpULt && ub < b.C) || (op == OpULe && ub <= b.C) {
+				return tt.Bool(true)
+			}
+		}
+	}
+	if (op == OpSLt || op == OpSLe) && b.IsConst() && a.W > 1 {
+		// signed compare against a non-negative constant when a is known non-negative and bounded
+		if ub, ok := tt.ubound(a); ok && ub < (uint64(1)<<uint(a.W-1)) && sx(b.C, a.W) >= 0 {
+			if (op == OpSLt && ub < b.C) || (op == OpSLe && ub <= b.C) {
+				return tt.Bool(true)
+			}
+		}
+	}
+	if (op == OpSLt || op == OpSLe) && a.IsConst() && b.W > 1 && sx(a.C, a.W) <= 0 {
+		// c <= b with c <= 0 and b known non-negative
+		if ub, ok := tt.ubound(b); ok && ub < (uint64(1)<<uint(b.W-1)) {
+			if op == OpSLe || sx(a.C, a.W) < 0 {
+				return tt.Bool(true)
+			}
+		}
+	}
 	return tt.mk(op, SBool, 0, 0, a, b)
+}
+
+// ubound returns an unsigned upper bound implied by the syntactic shape of a.
+func (tt *TermTable) ubound(a *Term) (uint64, bool) {
+	switch a.Op {
+	case OpConst:
+		return a.C, true
+	case OpAnd:
+		for _, x := range a.Args {
+			if x.IsConst() {
+				return x.C, true
+			}
+		}
+		for _, x := range a.Args {
+			if u, ok := tt.ubound(x); ok {
+				return u, true
+			}
+		}
+	case OpZExt:
+		if u, ok := tt.ubound(a.Args[0]); ok {
+			return u, true
+		}
+		if a.Args[0].W < 64 {
+			return mask(a.Args[0].W), true
+		}
+	case OpIte:
+		u1, ok1 := tt.ubound(a.Args[1])
+		u2, ok2 := tt.ubound(a.Args[2])
+		if ok1 && ok2 {
+			if u1 > u2 {
+				return u1, true
+			}
+			return u2, true
+		}
+	case OpURem:
+		if a.Args[1].IsConst() && a.Args[1].C > 0 {
+			return a.Args[1].C - 1, true
+		}
+	case OpLShr:
+		if a.Args[1].IsConst() && a.Args[1].C < uint64(a.W) {
+			return mask(a.W) >> a.Args[1].C, true
+		}
+	}
+	return 0, false
 }
 
 // ---- FP constructors ------------------------------------------------------------------------
